@@ -14,11 +14,12 @@ import (
 
 // (the second origin of list 3 is longer than a machine word has bits)
 var zzOrigins = [][]string{nil, {"*"}, {"o1"}, {"o1", "https://preview-0123456789abcdef0123456789abcdef.deployments.example.org"}, {"o1", "*"}}
-var zzAllowHdrs = [][]string{nil, {"*"}, {"X-A"}, {"X-A", "Content-Type"}, {"X-A", "b-c"}, {"X-Id", "X-A"}}
+var zzAllowHdrs = [][]string{nil, {"*"}, {"X-A"}, {"X-A", "Content-Type"}, {"X-A", "b-c"}, {"X-Id", "X-A", "X^B"}, {"Content-Type", "*"}}
 
 // requested header lists for the allowed list {"X-Id", "X-A"}: names that differ from an allowed
 // name only by a non-ASCII letter whose lower/upper-case mapping is an ASCII letter
-var zzACRHTraps = []string{"X-\u0130d", "x-a, x-\u0130D", "X-\u0131d", "x-id"}
+// (... or by a punctuation character that differs from an allowed one in bit 0x20 only)
+var zzACRHTraps = []string{"X-\u0130d", "x-a, x-\u0130D", "X-\u0131d", "x-id", "x~b", "x^b, X-ID"}
 var zzExposed = [][]string{nil, {"E1"}, {"E1", "E2"}}
 
 func zzLower(c byte) byte {
@@ -79,6 +80,9 @@ var zzCORSHeaders = []string{"Access-Control-Allow-Origin", "Access-Control-Allo
 func zzCallCORS(w http.ResponseWriter, r *http.Request, rt types.Route, h *hnd) {
 	if h.id == 9 {
 		for _, k := range zzCORSHeaders {
+			if v := w.Header()[k]; len(v) > 0 {
+				v[0] += "-own" // in place: the slice it was handed is its own as well
+			}
 			w.Header().Add(k, "X-Own")
 		}
 	}
@@ -134,6 +138,8 @@ func ZZC11(n int) {
 	}
 	r.Handle("/a", &hnd{id: 1}, nil, "GET", "DELETE")
 	r.Handle("/", &hnd{id: 2}, nil, "GET", "DELETE")
+	// a registration that is rejected (GET is taken) after PUT was looked at: PUT stays unserved
+	zzGuard(func() { r.Handle("/a", &hnd{id: 8}, nil, "PUT", "GET") })
 	if prime {
 		pr := NewRouter[*hnd]("r", zzCallCORS, &hnd{id: id404}, zzB405, zzBOpt, WithCORS(origins, allowH, exposed, maxAge, cred))
 		pr.Handle("/a", &hnd{id: 1}, nil, "GET", "DELETE")
@@ -203,7 +209,7 @@ func ZZC11(n int) {
 	case 3:
 		acrh, hasACRH = "X-A, Content-Type", true
 	case 4:
-		acrh, hasACRH = "x-a ,CONTENT-TYPE", true
+		acrh, hasACRH = "x-a \t,\tCONTENT-TYPE", true
 	case 5:
 		if n/100%10 == 5 {
 			acrh, hasACRH = zzACRHTraps[zzv.Choice("trap", len(zzACRHTraps))], true
@@ -222,6 +228,21 @@ func ZZC11(n int) {
 	acao := zzHdr(h, "Access-Control-Allow-Origin")
 	zzv.Obs("id", o.id)
 	zzv.Obs("acao", acao)
+
+	// a later request from another listed origin must not change what this response carries
+	if len(origins) == 2 && !anyOrigin && hasOrigin && zzContains(origins, origin) {
+		other := origins[0]
+		if other == origin {
+			other = origins[1]
+		}
+		req2 := zzReq("GET", "/a")
+		req2.Header.Set("Origin", other)
+		o2 := &zzObs{}
+		zzO = o2
+		r.ServeHTTP(newW(), req2)
+		zzO = o
+		zzv.Assert(zzHdr(h, "Access-Control-Allow-Origin") == acao, "C11:response-headers-changed-by-a-later-request")
+	}
 
 	// ---- reference decision ----
 	routeAllow := []string{"DELETE", "GET", "HEAD", "OPTIONS"}
